@@ -121,3 +121,466 @@ Proof.
     apply memN_In in Hh. congruence.
 Qed.
 
+(* ================================================================================= *)
+(* 2. The faithful model (of the code after fix commits 852aee9 and 4ad62fd) still    *)
+(*    violates agreement: findings/C01.json, C01-f.                                   *)
+(*    n = 5, t = 2, members 1 and 5 corrupt.  5 sends 1 a wrong share, 1 sends 2 a    *)
+(*    wrong share; 1 accuses 5 (with good reason) in phase 4; both are silent from    *)
+(*    phase 7 on.  Member 2 disqualifies 1 on its own in phase 4 and does not listen  *)
+(*    to 1 any more, so it keeps 5 in QUAL; members 3 and 4 disqualify 1 and 5.       *)
+(* ================================================================================= *)
+
+Definition wit_cfg : cfg := {| q := bn254_order; gn := 5; gt := 2; csess := 1; ops := [1; 2; 3; 4; 5] |}.
+Definition wit_a1 : list Z := [3; 1; 4]%Z.
+Definition wit_b1 : list Z := [1; 5; 9]%Z.
+Definition wit_a5 : list Z := [2; 7; 1]%Z.
+Definition wit_b5 : list Z := [8; 2; 8]%Z.
+Definition keys_of (i : N) (l : list N) := map (fun j => (j, ek i j)) l.
+(* the shares member [i] sends, the one for [bad] increased by one *)
+Definition shares_of (i : N) (a b : list Z) (l : list N) (bad : N) :=
+  map (fun j => (j, Enc (ecdh (ek i j) (ek j i))
+                        (eval bn254_order a j + (if N.eqb j bad then 1 else 0))%Z (eval bn254_order b j))) l.
+Definition wit_script : script :=
+  {| adv1 := [wrap wit_cfg (EphPub 1 1 (keys_of 1 [2; 3; 4; 5])); wrap wit_cfg (EphPub 5 1 (keys_of 5 [1; 2; 3; 4]))];
+     adv3 := [wrap wit_cfg (Shares 1 1 (shares_of 1 wit_a1 wit_b1 [2; 3; 4; 5] 2));
+              wrap wit_cfg (Commits 1 1 (combine wit_a1 wit_b1));
+              wrap wit_cfg (Shares 5 1 (shares_of 5 wit_a5 wit_b5 [1; 2; 3; 4] 1));
+              wrap wit_cfg (Commits 5 1 (combine wit_a5 wit_b5))];
+     adv4 := [wrap wit_cfg (SAccuse 1 1 [(5, ek 1 5)]); wrap wit_cfg (SAccuse 5 1 [])];
+     adv7 := []; adv8 := []; adv10 := [];
+     order := [] |}.
+Definition wit_input : input :=
+  {| i_cfg := wit_cfg;
+     i_honest := [ {| h_id := 2; h_coefA := [11; 12; 13]%Z; h_coefB := [21; 22; 23]%Z |};
+                   {| h_id := 3; h_coefA := [31; 32; 33]%Z; h_coefB := [41; 42; 43]%Z |};
+                   {| h_id := 4; h_coefA := [51; 52; 53]%Z; h_coefB := [61; 62; 63]%Z |} ];
+     i_script := wit_script |}.
+Definition wit_out : list (N * outcome) :=
+  [(2, Finished [5] [1; 3; 4] 93 701 []);
+   (3, Finished [] [1; 5] 113 1272 [(2, 681%Z); (4, 2061%Z)]);
+   (4, Finished [] [1; 5] 113 2061 [(2, 681%Z); (3, 1272%Z)])].
+Lemma wit_run_eq : run wit_input = wit_out.
+Proof. vm_compute. reflexivity. Qed.
+
+(* two honest members end with different keys, and honest 2 disqualifies honest 3 and 4 *)
+Lemma agreement_refuted :
+  exists i : input,
+    well_formed {| c_in := i; c_obs := map (fun h => (h_id h, OFailed)) (i_honest i) |} = true /\
+    corrupt_count i = 2 /\ covered i = true /\
+    ~ agreement (run i) /\ ~ never_marked (honest_ids i) (run i).
+Proof.
+  exists wit_input. split; [vm_compute; reflexivity|]. split; [vm_compute; reflexivity|].
+  split; [vm_compute; reflexivity|].
+  rewrite wit_run_eq. unfold wit_out. split.
+  - intros Hag.
+    destruct (Hag 2 3 _ _ _ _ _ _ _ _ _ _ (or_introl eq_refl) (or_intror (or_introl eq_refl))) as [E _].
+    discriminate E.
+  - intros Hnm.
+    apply (Hnm 2 _ _ _ _ _ 3 (or_introl eq_refl)).
+    + cbn. auto.
+    + change (In 3 [2; 3; 4]). cbn. auto.
+Qed.
+
+(* the witness of the repaired defect C01-a (DESIGN section 7): member 1 publishes the points of
+   f + 7 (x-2)(x-3); with 852aee9 modelled, all four honest members agree again *)
+Definition wa_script : script :=
+  let Q := bn254_order in
+  {| adv1 := [wrap wit_cfg (EphPub 1 1 (keys_of 1 [2; 3; 4; 5]))];
+     adv3 := [wrap wit_cfg (Shares 1 1 (shares_of 1 wit_a1 wit_b1 [2; 3; 4; 5] 0));
+              wrap wit_cfg (Commits 1 1 (combine wit_a1 wit_b1))];
+     adv4 := [wrap wit_cfg (SAccuse 1 1 [])];
+     (* 3 + x + 4x^2 + 7(x-2)(x-3) = 45 - 34x + 11x^2 *)
+     adv7 := [wrap wit_cfg (Points 1 1 [45; (-34) mod Q; 11]%Z)];
+     adv8 := [wrap wit_cfg (PAccuse 1 1 [])];
+     adv10 := [wrap wit_cfg (Reveal 1 1 [])];
+     order := [] |}.
+Definition wa_input : input :=
+  {| i_cfg := wit_cfg;
+     i_honest := i_honest wit_input ++ [ {| h_id := 5; h_coefA := [71; 72; 73]%Z; h_coefB := [81; 82; 83]%Z |} ];
+     i_script := wa_script |}.
+Definition all_agree (r : list (N * outcome)) : bool :=
+  all_same (fun a b => match snd a, snd b with
+                       | Finished ia1 dq1 k1 _ _, Finished ia2 dq2 k2 _ _ =>
+                           Z.eqb k1 k2 && listN_eqb (sort_set (ia1 ++ dq1)) (sort_set (ia2 ++ dq2))
+                       | _, _ => false end) r.
+Example c01a_witness_repaired :
+  all_agree (run wa_input) = true /\ map (fun p => match snd p with Finished ia dq _ _ _ => ia ++ dq | Failed => [0] end) (run wa_input) = [[1]; [1]; [1]; [1]].
+Proof. vm_compute. split; reflexivity. Qed.
+
+(* ================================================================================= *)
+(* 3. Lemmas over ALL inputs                                                          *)
+(* ================================================================================= *)
+
+(* ---------- 3.1 deduplicateBySender: first message of every sender, arrival interleaving of
+   different senders irrelevant ---------- *)
+Lemma memN_cons : forall x y l, memN x (y :: l) = N.eqb x y || memN x l.
+Proof. reflexivity. Qed.
+
+Lemma dedup_from_In : forall A (l : list (N * A)) seen s v,
+  In (s, v) (dedup_from seen l) <-> (memN s seen = false /\ lookup s l = Some v).
+Proof.
+  intros A l. induction l as [|[s' v'] r IH]; intros seen s v.
+  - cbn. split; [intros []|intros [_ H]; discriminate H].
+  - cbn [dedup_from lookup]. destruct (memN s' seen) eqn:Es'.
+    + rewrite IH. destruct (N.eqb s s') eqn:E.
+      * apply N.eqb_eq in E. subst s'. split; intros [H1 H2]; congruence.
+      * reflexivity.
+    + cbn [In]. rewrite IH, memN_cons. destruct (N.eqb s s') eqn:E.
+      * apply N.eqb_eq in E. subst s'. cbn [orb]. split.
+        -- intros [H|[H _]]; [|discriminate H]. inversion H. subst. auto.
+        -- intros [_ H]. inversion H. subst. left. reflexivity.
+      * cbn [orb]. split.
+        -- intros [H|H]; [|exact H]. inversion H. subst. rewrite N.eqb_refl in E. discriminate E.
+        -- intros H. right. exact H.
+Qed.
+
+Lemma dedup_In : forall A (l : list (N * A)) s v, In (s, v) (dedup l) <-> lookup s l = Some v.
+Proof.
+  intros A l s v. unfold dedup. rewrite dedup_from_In. cbn. split; [intros [_ H]; exact H|auto].
+Qed.
+
+Lemma dedup_from_NoDup : forall A (l : list (N * A)) seen, NoDup (map fst (dedup_from seen l)).
+Proof.
+  intros A l. induction l as [|[s' v'] r IH]; intros seen; cbn [dedup_from].
+  - constructor.
+  - destruct (memN s' seen) eqn:E; [apply IH|].
+    cbn [map fst]. constructor; [|apply IH].
+    intros Hin. apply in_map_iff in Hin. destruct Hin as [[s v] [Hs Hin]]. cbn in Hs. subst s.
+    apply dedup_from_In in Hin. destruct Hin as [Hm _]. rewrite memN_cons, N.eqb_refl in Hm. discriminate Hm.
+Qed.
+
+Lemma dedup_NoDup_senders : forall A (l : list (N * A)), NoDup (map fst (dedup l)).
+Proof. intros. apply dedup_from_NoDup. Qed.
+
+Lemma lookup_filter : forall A (l : list (N * A)) s,
+  lookup s l = match filter (fun p => N.eqb (fst p) s) l with [] => None | p :: _ => Some (snd p) end.
+Proof.
+  intros A l s. induction l as [|[s' v'] r IH]; cbn [lookup filter fst]; [reflexivity|].
+  rewrite (N.eqb_sym s' s). destruct (N.eqb s s'); [reflexivity|exact IH].
+Qed.
+
+(* two arrival orders with the same per-sender subsequences (consistent broadcast) *)
+Definition same_per_sender {A} (l1 l2 : list (N * A)) : Prop :=
+  forall s, filter (fun p => N.eqb (fst p) s) l1 = filter (fun p => N.eqb (fst p) s) l2.
+
+Lemma dedup_interleaving_irrelevant :
+  forall A (l1 l2 : list (N * A)), same_per_sender l1 l2 -> Permutation (dedup l1) (dedup l2).
+Proof.
+  intros A l1 l2 H. apply NoDup_Permutation.
+  - apply (NoDup_map_inv fst). apply dedup_NoDup_senders.
+  - apply (NoDup_map_inv fst). apply dedup_NoDup_senders.
+  - intros [s v]. rewrite !dedup_In, !lookup_filter, (H s). reflexivity.
+Qed.
+
+Example same_per_sender_sat :
+  same_per_sender [(1, 10); (2, 20); (1, 11)] [(2, 20); (1, 10); (1, 11)] /\
+  dedup [(1, 10); (2, 20); (1, 11)] = [(1, 10); (2, 20)] /\ dedup [(2, 20); (1, 10); (1, 11)] = [(2, 20); (1, 10)].
+Proof.
+  split; [|split; reflexivity].
+  intros s. cbn [filter fst]. destruct (N.eqb 1 s) eqn:E1; destruct (N.eqb 2 s) eqn:E2; try reflexivity.
+  apply N.eqb_eq in E1. apply N.eqb_eq in E2. subst s. discriminate E2.
+Qed.
+
+(* ---------- 3.2 arrival orders ---------- *)
+Lemma arrival_In : forall A (all : list A) perm x,
+  is_perm (length all) perm = true -> (In x (arrival all perm) <-> In x all).
+Proof.
+  intros A all perm x Hp. unfold arrival. rewrite in_flat_map. split.
+  - intros [k [_ Hk]]. destruct (nth_error all k) eqn:E; [|destruct Hk].
+    destruct Hk as [<-|[]]. eapply nth_error_In. exact E.
+  - intros Hin. apply In_nth_error in Hin. destruct Hin as [k Hk].
+    exists k. split; [|rewrite Hk; left; reflexivity].
+    unfold is_perm in Hp. apply andb_true_iff in Hp. destruct Hp as [_ Hall].
+    rewrite forallb_forall in Hall.
+    assert (Hlt : (k < length all)%nat) by (apply nth_error_Some; congruence).
+    specialize (Hall k). rewrite in_seq in Hall. specialize (Hall (conj (Nat.le_0_l k) Hlt)).
+    apply existsb_exists in Hall. destruct Hall as [k' [Hin Heq]]. apply Nat.eqb_eq in Heq. subst. exact Hin.
+Qed.
+
+(* ---------- 3.3 MarkInactiveMembers ---------- *)
+Lemma memN_app : forall x l1 l2, memN x (l1 ++ l2) = memN x l1 || memN x l2.
+Proof. intros. unfold memN. apply existsb_app. Qed.
+
+Lemma members_NoDup : forall c, NoDup (members c).
+Proof.
+  intros c. unfold members. apply FinFun.Injective_map_NoDup; [|apply seq_NoDup].
+  intros a b H. apply Nat2N.inj. exact H.
+Qed.
+
+Lemma in_group_members : forall c m, in_group c m = true -> In m (members c).
+Proof.
+  intros c m H. unfold in_group in H. apply andb_true_iff in H. destruct H as [H1 H2].
+  apply N.leb_le in H1. apply N.leb_le in H2. unfold members. apply in_map_iff.
+  exists (N.to_nat m). split; [apply N2Nat.id|]. apply in_seq. lia.
+Qed.
+
+Definition mi_step (c : cfg) (active : list N) :=
+  fun (s : mstate) (m : N) => if N.eqb m (me s) || memN m active then s else mark_ia c m s.
+
+Lemma mi_fold : forall c active L s,
+  NoDup L -> (forall m, In m L -> is_operating c s m = true) ->
+  ia (fold_left (mi_step c active) L s) = ia s ++ filter (fun m => negb (N.eqb m (me s) || memN m active)) L
+  /\ dq (fold_left (mi_step c active) L s) = dq s /\ me (fold_left (mi_step c active) L s) = me s.
+Proof.
+  intros c active L. induction L as [|m r IH]; intros s Hnd Hop.
+  - cbn. rewrite app_nil_r. auto.
+  - cbn [fold_left filter]. inversion Hnd as [|? ? Hnin Hnd']. subst.
+    unfold mi_step at 2 4 6. destruct (N.eqb m (me s) || memN m active) eqn:E; cbn [negb].
+    + apply IH; [exact Hnd'|]. intros m' Hm'. apply Hop. right. exact Hm'.
+    + unfold mark_ia. rewrite (Hop m (or_introl eq_refl)).
+      set (s1 := set_ia (ia s ++ [m]) s).
+      assert (Hop1 : forall m', In m' r -> is_operating c s1 m' = true).
+      { intros m' Hm'. specialize (Hop m' (or_intror Hm')). unfold is_operating in *.
+        change (ia s1) with (ia s ++ [m]). change (dq s1) with (dq s).
+        apply andb_true_iff in Hop. destruct Hop as [Hop Hd]. apply andb_true_iff in Hop. destruct Hop as [Hg Hi].
+        rewrite Hg, Hd, memN_app. apply negb_true_iff in Hi. rewrite Hi. cbn.
+        destruct (N.eqb m' m) eqn:E'; [|reflexivity].
+        apply N.eqb_eq in E'. subst. contradiction. }
+      destruct (IH s1 Hnd' Hop1) as [H1 [H2 H3]].
+      change (ia s1) with (ia s ++ [m]) in H1. change (dq s1) with (dq s) in H2.
+      change (me s1) with (me s) in H1, H3.
+      rewrite H1, H2, H3, <- app_assoc. auto.
+Qed.
+
+Lemma mark_inactive_spec : forall c active s,
+  (forall m, In m (ia (mark_inactive c active s)) <->
+             In m (ia s) \/ (is_operating c s m = true /\ m <> me s /\ ~ In m active))
+  /\ dq (mark_inactive c active s) = dq s /\ me (mark_inactive c active s) = me s.
+Proof.
+  intros c active s. unfold mark_inactive.
+  change (fun (s0 : mstate) (m : N) => if N.eqb m (me s0) || memN m active then s0 else mark_ia c m s0)
+    with (mi_step c active).
+  destruct (mi_fold c active (operating c s) s) as [H1 [H2 H3]].
+  - unfold operating. apply NoDup_filter. apply members_NoDup.
+  - intros m Hm. unfold operating in Hm. apply filter_In in Hm. apply Hm.
+  - split; [|auto]. intros m. rewrite H1, in_app_iff, filter_In. unfold operating. rewrite filter_In.
+    rewrite negb_true_iff, orb_false_iff, N.eqb_neq.
+    assert (Hmem : memN m active = false <-> ~ In m active).
+    { rewrite <- memN_In. destruct (memN m active); split; intros; congruence. }
+    rewrite Hmem. split.
+    + intros [H|[[_ Ho] [Hne Hna]]]; auto.
+    + intros [H|[Ho [Hne Hna]]]; auto. right. split; [split; [|exact Ho]|auto].
+      apply in_group_members. unfold is_operating in Ho.
+      apply andb_true_iff in Ho. destruct Ho as [Ho _]. apply andb_true_iff in Ho. apply Ho.
+Qed.
+
+(* ---------- 3.4 Receive: what reaches the inboxes ---------- *)
+Definition msg_sender (m : msg) : N :=
+  match m with EphPub a _ _ | Shares a _ _ | Commits a _ _ | SAccuse a _ _
+             | Points a _ _ | PAccuse a _ _ | Reveal a _ _ => a end.
+Definition msg_sess (m : msg) : N :=
+  match m with EphPub _ x _ | Shares _ x _ | Commits _ x _ | SAccuse _ x _
+             | Points _ x _ | PAccuse _ x _ | Reveal _ x _ => x end.
+(* the message type the state of phase [p] listens to *)
+Definition kind_ok (p : N) (m : msg) : bool :=
+  match m with
+  | EphPub _ _ _ => N.eqb p 1 | Shares _ _ _ => N.eqb p 3 | Commits _ _ _ => N.eqb p 3
+  | SAccuse _ _ _ => N.eqb p 4 | Points _ _ _ => N.eqb p 7 | PAccuse _ _ _ => N.eqb p 8
+  | Reveal _ _ _ => N.eqb p 10
+  end.
+Definition inbox_has (m : msg) (s : mstate) : Prop :=
+  match m with
+  | EphPub a _ v => In (a, v) (in_eph s) | Shares a _ v => In (a, v) (in_sh s)
+  | Commits a _ v => In (a, v) (in_cm s) | SAccuse a _ v => In (a, v) (in_sacc s)
+  | Points a _ v => In (a, v) (in_pts s) | PAccuse a _ v => In (a, v) (in_pacc s)
+  | Reveal a _ v => In (a, v) (in_rev s)
+  end.
+
+Ltac split_p p :=
+  destruct p as [|p]; [|do 4 (try (destruct p as [p|p|]))].
+
+Lemma receive_view : forall c p s m,
+  me (receive c p s m) = me s /\ ia (receive c p s m) = ia s /\ dq (receive c p s m) = dq s.
+Proof.
+  intros c p s m. unfold receive. destruct (payload m); split_p p; cbn;
+    repeat match goal with |- context [if ?b then _ else _] => destruct b end; cbn; auto.
+Qed.
+
+Lemma receive_mono : forall c p s m,
+  incl (in_eph s) (in_eph (receive c p s m)) /\ incl (in_sh s) (in_sh (receive c p s m)) /\
+  incl (in_cm s) (in_cm (receive c p s m)) /\ incl (in_sacc s) (in_sacc (receive c p s m)) /\
+  incl (in_pts s) (in_pts (receive c p s m)) /\ incl (in_pacc s) (in_pacc (receive c p s m)) /\
+  incl (in_rev s) (in_rev (receive c p s m)).
+Proof.
+  intros c p s m. unfold receive. destruct (payload m); split_p p; cbn;
+    repeat match goal with |- context [if ?b then _ else _] => destruct b end; cbn;
+    repeat split; auto using incl_refl, incl_appl.
+Qed.
+
+Lemma accepts_view : forall c s s' a ss k,
+  me s' = me s -> ia s' = ia s -> dq s' = dq s -> accepts c s' a ss k = accepts c s a ss k.
+Proof. intros c s s' a ss k H1 H2 H3. unfold accepts, is_operating. rewrite H1, H2, H3. reflexivity. Qed.
+
+Lemma inbox_keeps : forall c p s m x, inbox_has x s -> inbox_has x (receive c p s m).
+Proof.
+  intros c p s m x H. destruct (receive_mono c p s m) as (H1 & H2 & H3 & H4 & H5 & H6 & H7).
+  destruct x; cbn in *; auto.
+Qed.
+
+Lemma fold_receive_view : forall c p L s,
+  me (fold_left (receive c p) L s) = me s /\ ia (fold_left (receive c p) L s) = ia s
+  /\ dq (fold_left (receive c p) L s) = dq s.
+Proof.
+  intros c p L. induction L as [|x r IH]; intros s; cbn [fold_left]; [auto|].
+  destruct (IH (receive c p s x)) as (H1 & H2 & H3). destruct (receive_view c p s x) as (G1 & G2 & G3).
+  rewrite H1, H2, H3. auto.
+Qed.
+
+Lemma fold_inbox_keeps : forall c p L s x, inbox_has x s -> inbox_has x (fold_left (receive c p) L s).
+Proof.
+  intros c p L. induction L as [|y r IH]; intros s x H; cbn [fold_left]; [exact H|].
+  apply IH. apply inbox_keeps. exact H.
+Qed.
+
+Lemma receive_delivers : forall c p s m,
+  kind_ok p (payload m) = true ->
+  accepts c s (msg_sender (payload m)) (msg_sess (payload m)) (from_key m) = true ->
+  inbox_has (payload m) (receive c p s m).
+Proof.
+  intros c p s m Hk Ha. unfold receive. destruct (payload m); cbn in Hk, Ha; apply N.eqb_eq in Hk; subst p;
+    cbn; rewrite Ha; cbn; apply in_or_app; right; left; reflexivity.
+Qed.
+
+(* every message of the right type that arrives from an accepted sender is in the inbox *)
+Lemma delivered : forall c p L s m,
+  In m L -> kind_ok p (payload m) = true ->
+  accepts c s (msg_sender (payload m)) (msg_sess (payload m)) (from_key m) = true ->
+  inbox_has (payload m) (fold_left (receive c p) L s).
+Proof.
+  intros c p L. induction L as [|x r IH]; intros s m Hin Hk Ha; [destruct Hin|].
+  cbn [fold_left]. destruct Hin as [->|Hin].
+  - apply fold_inbox_keeps. apply receive_delivers; assumption.
+  - apply IH; [exact Hin|exact Hk|].
+    destruct (receive_view c p s x) as (G1 & G2 & G3). rewrite (accepts_view c s); assumption.
+Qed.
+
+(* the list every phase hands to MarkInactiveMembers *)
+Definition actives (p : N) (s : mstate) : list N :=
+  if N.eqb p 1 then map fst (in_eph s) else
+  if N.eqb p 3 then filter (fun a => memN a (map fst (in_cm s))) (map fst (in_sh s)) else
+  if N.eqb p 4 then map fst (in_sacc s) else
+  if N.eqb p 7 then map fst (in_pts s) else
+  if N.eqb p 8 then map fst (in_pacc s) else map fst (in_rev s).
+
+Lemma phases_mark_inactive_first : forall c s,
+  phase2 c s = fold_left (phase2_step c) (dedup (in_eph (mark_inactive c (actives 1 s) s))) (mark_inactive c (actives 1 s) s)
+  /\ phase5 c s = fst (fold_left (fun sb m => fold_left (resolve5 c (fst m)) (snd m) sb)
+                                 (dedup (in_sacc (mark_inactive c (actives 4 s) s))) (mark_inactive c (actives 4 s) s, false))
+  /\ phase9 c s = fst (fold_left (fun sb m => fold_left (resolve9 c (fst m)) (snd m) sb)
+                                 (dedup (in_pacc (mark_inactive c (actives 8 s) s))) (mark_inactive c (actives 8 s) s, false)).
+Proof. intros c s. repeat split; reflexivity. Qed.
+
+Lemma accepts_operating : forall c s a ss k, accepts c s a ss k = true -> is_operating c s a = true /\ a <> me s.
+Proof.
+  intros c s a ss k H. unfold accepts in H.
+  apply andb_true_iff in H. destruct H as [H _]. apply andb_true_iff in H. destruct H as [H Ho].
+  apply andb_true_iff in H. destruct H as [Hne _]. apply negb_true_iff, N.eqb_neq in Hne. auto.
+Qed.
+
+Lemma operating_not_ia : forall c s a, is_operating c s a = true -> ~ In a (ia s).
+Proof.
+  intros c s a H Hin. unfold is_operating in H. apply andb_true_iff in H. destruct H as [H _].
+  apply andb_true_iff in H. destruct H as [_ H]. apply negb_true_iff in H. apply memN_In in Hin. congruence.
+Qed.
+
+(* A member whose message of the phase arrived (and is accepted: right operator key, session,
+   still operating for the receiver) is not marked inactive in that phase -- whatever else
+   arrived, in whatever order.  Phases with one message type: *)
+Lemma arrived_not_marked_inactive : forall c p L s m,
+  In m L -> kind_ok p (payload m) = true -> p <> 3 ->
+  accepts c s (msg_sender (payload m)) (msg_sess (payload m)) (from_key m) = true ->
+  ~ In (msg_sender (payload m))
+       (ia (mark_inactive c (actives p (fold_left (receive c p) L s)) (fold_left (receive c p) L s))).
+Proof.
+  intros c p L s m Hin Hk Hp3 Ha.
+  pose proof (delivered c p L s m Hin Hk Ha) as Hd.
+  destruct (fold_receive_view c p L s) as (V1 & V2 & V3).
+  set (s' := fold_left (receive c p) L s) in *.
+  destruct (mark_inactive_spec c (actives p s') s') as [Hspec _].
+  rewrite Hspec. destruct (accepts_operating _ _ _ _ _ Ha) as [Hop Hne].
+  intros [Hia|(_ & _ & Hna)].
+  - rewrite V2 in Hia. exact (operating_not_ia _ _ _ Hop Hia).
+  - apply Hna. unfold actives.
+    destruct (payload m) eqn:E; cbn in Hk; apply N.eqb_eq in Hk; subst p; cbn [N.eqb Pos.eqb];
+      try (exfalso; apply Hp3; reflexivity); cbn in Hd |- *;
+      apply in_map_iff; eexists; (split; [|exact Hd]); reflexivity.
+Qed.
+
+(* phase 3/4: both the shares and the commitments message are needed *)
+Lemma arrived_not_marked_inactive_phase4 : forall c L s m1 m2 a ss1 ss2 sh cs,
+  In m1 L -> In m2 L -> payload m1 = Shares a ss1 sh -> payload m2 = Commits a ss2 cs ->
+  accepts c s a ss1 (from_key m1) = true -> accepts c s a ss2 (from_key m2) = true ->
+  ~ In a (ia (mark_inactive c (actives 3 (fold_left (receive c 3) L s)) (fold_left (receive c 3) L s))).
+Proof.
+  intros c L s m1 m2 a ss1 ss2 sh cs H1 H2 E1 E2 A1 A2.
+  assert (D1 := delivered c 3 L s m1 H1). rewrite E1 in D1. specialize (D1 eq_refl A1).
+  assert (D2 := delivered c 3 L s m2 H2). rewrite E2 in D2. specialize (D2 eq_refl A2).
+  destruct (fold_receive_view c 3 L s) as (V1 & V2 & V3).
+  set (s' := fold_left (receive c 3) L s) in *.
+  destruct (mark_inactive_spec c (actives 3 s') s') as [Hspec _].
+  rewrite Hspec. destruct (accepts_operating _ _ _ _ _ A1) as [Hop Hne].
+  intros [Hia|(_ & _ & Hna)].
+  - rewrite V2 in Hia. exact (operating_not_ia _ _ _ Hop Hia).
+  - apply Hna. unfold actives. cbn [N.eqb Pos.eqb]. cbn in D1, D2. apply filter_In. split.
+    + apply in_map_iff. eexists. split; [|exact D1]. reflexivity.
+    + apply memN_In. apply in_map_iff. eexists. split; [|exact D2]. reflexivity.
+Qed.
+
+(* conversely: an operating member none of whose messages is in the inbox IS marked inactive,
+   by every receiver alike *)
+Lemma silent_marked_inactive : forall c p s a,
+  is_operating c s a = true -> a <> me s -> ~ In a (actives p s) ->
+  In a (ia (mark_inactive c (actives p s) s)).
+Proof.
+  intros c p s a Ho Hne Hna. destruct (mark_inactive_spec c (actives p s) s) as [Hspec _].
+  apply Hspec. right. auto.
+Qed.
+
+(* ---------- 3.5 what an honest member publishes passes the checks of every receiver ---------- *)
+Lemma eval_from_mod : forall qq x coefs k acc,
+  (acc mod qq = acc)%Z -> (eval_from qq x k coefs acc mod qq = eval_from qq x k coefs acc)%Z.
+Proof.
+  intros qq x coefs. induction coefs as [|a r IH]; intros k acc H; cbn [eval_from]; [exact H|].
+  apply IH. apply Zmod_mod.
+Qed.
+
+Lemma eval_mod : forall qq coefs x, (eval qq coefs x mod qq = eval qq coefs x)%Z.
+Proof. intros. unfold eval. apply eval_from_mod. apply Zmod_0_l. Qed.
+
+Lemma map_fst_combine : forall A B (a : list A) (b : list B), length a = length b -> map fst (combine a b) = a.
+Proof.
+  intros A B a. induction a as [|x a IH]; intros [|y b] H; cbn in *; try reflexivity; try discriminate.
+  f_equal. apply IH. congruence.
+Qed.
+Lemma map_snd_combine : forall A B (a : list A) (b : list B), length a = length b -> map snd (combine a b) = b.
+Proof.
+  intros A B a. induction a as [|x a IH]; intros [|y b] H; cbn in *; try reflexivity; try discriminate.
+  f_equal. apply IH. congruence.
+Qed.
+
+(* phase 3 of an honest member (shares eval a j, eval b j; commitments combine a b) passes
+   areSharesValidAgainstCommitments at every receiver j, for every modulus and polynomial *)
+Lemma honest_shares_valid : forall qq a b j,
+  length a = length b -> a <> [] -> valid_g1 qq (eval qq a j) (eval qq b j) (combine a b) j = true.
+Proof.
+  intros qq a b j Hl Hne. unfold valid_g1.
+  destruct (combine a b) eqn:E.
+  - destruct a; [congruence|]. destruct b; cbn in *; discriminate.
+  - rewrite <- E, map_fst_combine, map_snd_combine, !eval_mod, !Z.eqb_refl by assumption. reflexivity.
+Qed.
+
+(* phase 7 of an honest member (points = the coefficients a) passes
+   isShareValidAgainstPublicKeySharePoints for the share eval a j it sent to j *)
+Lemma honest_points_valid : forall qq a j, a <> [] -> valid_g2 qq j (eval qq a j) a = true.
+Proof.
+  intros qq a j Hne. unfold valid_g2. destruct a; [congruence|]. rewrite eval_mod. apply Z.eqb_refl.
+Qed.
+
+(* non-vacuity: the hypotheses of the lemmas of section 3 hold of the honest run below *)
+Example mark_inactive_example :
+  let c := wit_cfg in
+  let s := init_state {| h_id := 2; h_coefA := [11; 12; 13]%Z; h_coefB := [21; 22; 23]%Z |} in
+  let L := [wrap c (EphPub 3 1 (keys_of 3 [1; 2; 4; 5])); wrap c (EphPub 1 1 (keys_of 1 [2; 3; 4; 5]))] in
+  accepts c s 3 1 3 = true /\
+  ia (mark_inactive c (actives 1 (fold_left (receive c 1) L s)) (fold_left (receive c 1) L s)) = [4; 5].
+Proof. vm_compute. split; reflexivity. Qed.
